@@ -44,6 +44,15 @@ ALIASES = {
 }
 
 
+def _has_anything(xs, depth=0):
+    for x in xs:
+        if isinstance(x, C.Anything):
+            return True
+        if depth < 2 and isinstance(x, (list, tuple)) and _has_anything(x, depth + 1):
+            return True
+    return False
+
+
 class SymRange:
     """range(lo, hi) with symbolic bounds (step 1)"""
 
@@ -71,6 +80,9 @@ class Lib:
         def deco(f):
             def wrapped(E, *a, **k):
                 self.used.add(path)
+                if _has_anything(a) or _has_anything(tuple(k.values())):
+                    # value irrelevant to the task (result of a stubbed callee)
+                    return C.Anything(path)
                 return f(E, *a, **k)
 
             b = Builtin(path, wrapped)
